@@ -580,3 +580,37 @@ def value_on_path(p, expr, upto=None, stop=()):
             break
         expr, end = p.ev[at][1].value, at
     return expr
+
+
+def func_aliases(fn):
+    """{local: expr} for the locals of *fn* bound exactly once in the whole function, by `name = <name or attribute chain>`
+    (an attribute lookup cached in a local: `ctx = self._dcontext`, `add = ctx.add`), whose operands are not rebound in the
+    function.  Use with expand()."""
+    counts = {}
+    for st in A.walk_local(fn, include_self=False):
+        names = []
+        if isinstance(st, (ast.Assign, ast.AugAssign, ast.AnnAssign, ast.For, ast.With, ast.Delete)) or isinstance(st, ast.comprehension):
+            names = [x for t in A.assigned_targets(st) for x in A.target_names(t)] if not isinstance(st, ast.comprehension) else A.target_names(st.target)
+        elif isinstance(st, ast.ExceptHandler) and st.name:
+            names = [st.name]
+        elif isinstance(st, ast.NamedExpr):
+            names = [st.target.id]
+        for n in names:
+            counts[n] = counts.get(n, 0) + 1
+    params = set(A.func_params(fn))
+    out = {}
+    for st in A.walk_local(fn, include_self=False):
+        if isinstance(st, ast.Assign) and len(st.targets) == 1 and isinstance(st.targets[0], ast.Name):
+            name = st.targets[0].id
+            if counts.get(name) != 1 or name in params:
+                continue
+            v = st.value
+            e = v
+            while isinstance(e, ast.Attribute):
+                e = e.value
+            if not isinstance(e, ast.Name) or not isinstance(v, (ast.Attribute,)):
+                continue
+            if counts.get(e.id, 0) > (0 if e.id in params or e.id == "self" else 1):
+                continue
+            out[name] = v
+    return out
